@@ -565,8 +565,8 @@ MANIFEST = dict(
          "and comparisons incl. linspace/logspace on every ordered pair, 32 unary forms incl. reflected arithmetic with "
          "plain numbers, powers, indexing and 16 NumPy functions, value queries in 3 units, and the in-place methods "
          "to/rebase/abse/rele on every object, operands and results alike) is executed on freshly built operands "
-         "(3.6e5 histories, 8.4e4 distinct states); the thorough tier adds a third step from every distinct state "
-         "(in-place methods and value queries on every object, == and + on all ordered pairs; about 7e6 more histories). "
+         "(3.9e5 histories, 9.1e4 distinct states); the thorough tier adds a third step from every distinct state "
+         "(in-place methods and value queries on every object, == and + on all ordered pairs; about 8e6 more histories). "
          "After every step all objects that are not the target of an in-place method must report bit-identical value, "
          "units and uncertainty, and - whenever any attribute of its Magnitude/BaseUnits changed - the same recomputed "
          "reports (value(unit), q*1, q*q, sqrt(q), rebase() on deep copies) as before the step.",
